@@ -283,6 +283,11 @@ def run_clause_generated(prop_id, clause: Clause, n: int, seed: int, shrink: boo
     except (FailedHealthCheck, Unsatisfiable) as e:
         raise HarnessError("clause %s: generator health check failed: %s" % (clause.name, e))
     res.wall_s = time.time() - t0
+    total = rec.evaluations + rec.discarded
+    if res.violation is None and total >= 40 and rec.discarded > 0.6 * total:
+        # a clause that throws most of its cases away tests little: that is a defect of the harness
+        raise HarnessError("clause %s discarded %d of %d generated cases (vacuous generator or domain predicate)"
+                           % (clause.name, rec.discarded, total))
     return res
 
 
